@@ -21,6 +21,21 @@ import (
 
 var nqKeyCols = []string{"srcisdid", "srcasid", "dstisdid", "dstasid"}
 
+func init() {
+	addMutants(
+		Mutant{Prop: "C27", Name: "candidates-longest-first", File: "private/storage/beacon/sqlite/db.go",
+			Old: `		ORDER BY b.HopsLength ASC`, New: `		ORDER BY b.HopsLength DESC`, Expect: "Q2-statements"},
+		Mutant{Prop: "C27", Name: "cleanup-removes-the-not-yet-expired", File: "private/storage/beacon/sqlite/db.go",
+			Old: "delStmt := `DELETE FROM Beacons WHERE ExpirationTime < ?`", New: "delStmt := `DELETE FROM Beacons WHERE ExpirationTime <= ?`", Expect: "Q2-statements"},
+		Mutant{Prop: "C27", Name: "next-query-equal-time-rewritten-by-other-key", File: "private/storage/path/sqlite/sqlite.go",
+			Old: `		LEFT JOIN NextQuery USING (SrcIsdID, SrcAsID, DstIsdID, DstAsID)`,
+			New: `		LEFT JOIN NextQuery USING (SrcIsdID, SrcAsID, DstAsID)`, Expect: "N1-next-query-monotone"},
+		Mutant{Prop: "C27", Name: "next-query-older-time-accepted", File: "private/storage/path/sqlite/sqlite.go",
+			Old: `		WHERE data.lq > NextQuery.NextQuery OR NextQuery.DstIsdID IS NULL;`,
+			New: `		WHERE data.lq != NextQuery.NextQuery OR NextQuery.DstIsdID IS NULL;`, Expect: "N1-next-query-monotone"},
+	)
+}
+
 // constString resolves a string that is a constant or a captured variable
 // assigned once with a constant.
 func constString(v ssa.Value) (string, bool) {
@@ -70,7 +85,97 @@ func constString(v ssa.Value) (string, bool) {
 	return "", false
 }
 
+// c27Statements: the constant statements behind "clean-up removes exactly the
+// expired entries" and "candidate beacons come in non-decreasing length order up
+// to the requested count".
+func c27Statements(c *Ctx) {
+	rule := "Q2-statements"
+	norm := func(q string) string { return strings.ToLower(strings.Join(strings.Fields(q), " ")) }
+	// statements executed in fn or its closures, with their bound arguments
+	type stmt struct {
+		q    string
+		args []ssa.Value
+		in   ssa.Instruction
+		s    *Symer
+	}
+	collect := func(root *ssa.Function) []stmt {
+		var out []stmt
+		fns := append([]*ssa.Function{root}, root.AnonFuncs...)
+		for _, fn := range fns {
+			s := NewSymer()
+			for _, b := range fn.Blocks {
+				for _, in := range b.Instrs {
+					ci, ok := in.(ssa.CallInstruction)
+					if !ok {
+						continue
+					}
+					cargs := ci.Common().Args
+					if ci.Common().IsInvoke() {
+						cargs = append([]ssa.Value{ci.Common().Value}, cargs...)
+					}
+					if len(cargs) < 3 {
+						continue
+					}
+					name := calleeName(ci.Common())
+					if !(strings.HasSuffix(name, "ExecContext") || strings.HasSuffix(name, "QueryContext")) {
+						continue
+					}
+					qv := cargs[2]
+					q, ok := constString(qv)
+					if !ok {
+						// fmt.Sprintf(constant format, ...)
+						if call, isCall := qv.(*ssa.Call); isCall && calleeName(call.Common()) == "fmt.Sprintf" {
+							q, ok = constString(call.Common().Args[0])
+						}
+					}
+					if !ok {
+						continue
+					}
+					var args []ssa.Value
+					if len(cargs) > 3 {
+						args = variadicArgs(cargs[3])
+					}
+					out = append(out, stmt{norm(q), args, in, s})
+				}
+			}
+		}
+		return out
+	}
+	del := func(q, table, col string) {
+		root := c.Fn(q)
+		if root == nil {
+			return
+		}
+		ss := collect(root)
+		ok := len(ss) == 1
+		if ok {
+			st := ss[0]
+			ok = st.q == "delete from "+table+" where "+col+" < ?" && len(st.args) == 1 &&
+				strings.Contains(st.s.Sym(st.args[0]), "(time.Time).Unix(") && !strings.Contains(st.s.Sym(st.args[0]), "time.Now")
+		}
+		c.Check(ok, rule, FuncName(root)+":deletes-exactly-the-expired", root.Pos(),
+			"one statement: DELETE FROM "+table+" WHERE "+col+" < ? bound to the Unix time of the 'now' handed in")
+	}
+	del("(*private/storage/beacon/sqlite.executor).DeleteExpiredBeacons", "beacons", "expirationtime")
+	del("(*private/storage/path/sqlite.executor).DeleteExpired", "segments", "maxexpiry")
+	if root := c.Fn("(*private/storage/beacon/sqlite.executor).CandidateBeacons"); root != nil {
+		ss := collect(root)
+		ok := len(ss) == 1
+		why := fmt.Sprintf("%d statement(s)", len(ss))
+		if ok {
+			st := ss[0]
+			why = st.q
+			ok = strings.Contains(st.q, "where ( b.usage & ?1 ) == ?1") && strings.Contains(st.q, "order by b.hopslength asc limit ?2") &&
+				!strings.Contains(st.q, " desc") && len(st.args) >= 2 &&
+				st.s.Sym(st.args[0]) == "arg2" && st.s.Sym(st.args[1]) == "arg1"
+		}
+		c.Check(ok, rule, FuncName(root)+":ordered-by-length-up-to-count", root.Pos(),
+			"candidates with the requested usage bits, ORDER BY HopsLength ASC LIMIT setSize: "+why)
+	}
+}
+
 func c27NextQuery(c *Ctx) {
+	c27Statements(c)
 	rule := "N1-next-query-monotone"
 	root := c.Fn("(*private/storage/path/sqlite.executor).InsertNextQuery")
 	if root == nil {
